@@ -124,6 +124,11 @@ func (t *ParserTerm) preCheck(ctx *Context) bool {
 
 	case t.Type == ParserTermError:
 		t.Symbol = ctx.Grammar.ErrorTerminal
+
+	case t.Type == ParserTermSimple:
+		// Neither a name nor an alias: the term was written as ''.
+		ctx.Errs.Errorf(ctx.Position(t), "literal cannot be empty")
+		return false
 	}
 
 	return true
